@@ -81,7 +81,7 @@ def plan(tier, seed):
             if tier == "quick" and mode != "line":
                 nparts = 2
             if mode == "syserr":
-                nparts = 1
+                nparts = 4
             for p in range(nparts):
                 specs.append({"kind": "kill", "cfg": list(cfg), "mode": mode, "part": p, "parts": nparts,
                               "stride": stride if mode == "line" else 1})
